@@ -114,6 +114,12 @@ func refErrorsBefore(ref, f *l2.Result) []string {
 }
 
 func (d *D) runL2Item(idx int, ctx *core.Ctx) {
+	if !d.gate(ctx) {
+		// the evaluator does not yield per iteration/call (reported by O4): the
+		// browser-level runs would only crawl
+		ctx.Inc("l2_skipped_gate_failed", 1)
+		return
+	}
 	sc := l2Base(idx, ctx)
 	if sc == nil {
 		return
